@@ -264,7 +264,7 @@ Definition c5_triggers (g : gid) (kids : list txid) (ops : list op) (rs : list (
               | _ => []
               end) (combine ops rs).
 
-Definition c5_check (w : world) (q : query) (ops : list op) (prev : option bobs) (ob : bobs) (g : gid) : bool :=
+Definition c5_check (w : world) (q : query) (bh : N) (ops : list op) (prev : option bobs) (ob : bobs) (g : gid) : bool :=
   match obs_ch q ob g with
   | None => true
   | Some (gs, hh, cnt, kids) =>
@@ -277,6 +277,9 @@ Definition c5_check (w : world) (q : query) (ops : list op) (prev : option bobs)
       (if in_fail_family gs then forallb (fun k => in_fail_family (snd k)) kids else true) &&
       (* never SUCCESS once failed *)
       g_ok_b pgs (Some gs) &&
+      (* the group times out: from the block of its recorded timeout height on it is not BEGIN any more
+         (so, by the previous line, it can become SUCCESS afterwards only if it already was) *)
+      negb ((hh <=? bh) && (gs =? ST_BEGIN)) &&
       (* the block in which the group leaves BEGIN for a failure status *)
       (if (match pgs with Some x => x =? ST_BEGIN | None => false end) && in_fail_family gs then
          let src := chain_of w (fst (fst g)) in
@@ -293,17 +296,17 @@ Definition c5_check (w : world) (q : query) (ops : list op) (prev : option bobs)
        else true)
   end.
 
-Fixpoint c05_go (w : world) (q : query) (prev : option bobs) (items : list item) (tr : list bobs) : bool :=
+Fixpoint c05_go (w : world) (q : query) (h : N) (prev : option bobs) (items : list item) (tr : list bobs) : bool :=
   match items with
   | [] => match tr with [] => true | _ => false end
-  | IRestart :: r => c05_go w q prev r tr
+  | IRestart :: r => c05_go w q h prev r tr
   | IBlock ops :: r =>
       match tr with
       | [] => false
-      | ob :: tr' => forallb (c5_check w q ops prev ob) (q_gids q) && c05_go w q (Some ob) r tr'
+      | ob :: tr' => forallb (c5_check w q (h + 1) ops prev ob) (q_gids q) && c05_go w q (h + 1) (Some ob) r tr'
       end
   end.
-Definition c05_b (w : world) (q : query) (items : list item) (tr : list bobs) : bool := c05_go w q None items tr.
+Definition c05_b (w : world) (q : query) (items : list item) (tr : list bobs) : bool := c05_go w q 2 None items tr.
 
 (** * C06: an id is announced as timed out exactly at H+T, iff no receipt was accepted by then *)
 Record c6e := { c6_exp : N; c6_rcv : bool }.
